@@ -16,6 +16,11 @@
 (*         algorithm, against "every point gets the weight of the atom     *)
 (*         that owns it, exactly once".                                    *)
 (* Part D  radius fall-back for elements without a tabulated radius.       *)
+(* Part E  (audit extension) Hirshfeld share; further extensions are       *)
+(*         marked "audit": cut-off as an input (ProgramC, CutFamily),      *)
+(*         fall-back under radii overrides (Scenarios), larger chunk cases *)
+(*         chosen by the harness, the empty grid, more observed routes     *)
+(*         (PickExtra, ObsConformsX), variant "unsigned".                  *)
 (*                                                                         *)
 (* Tables_becke is generated at check time: MaxM, MaxN (bounds of the      *)
 (* chunk model), Defined (atomic numbers with a tabulated Bragg radius,    *)
@@ -106,6 +111,42 @@ Interface(m_, dim_) ==
      outputs |-> [b_ \in 1..m_ |-> Nm("w", b_)],
      alphas |-> [k_ \in 1..NPairs(m_) |-> Nm2("a", PairB(m_, k_), PairC(m_, k_))]]
 
+(***************************************************************************)
+(* Audit extension of Part A.  The same definition with the cut-off as an  *)
+(* INPUT named "cut" (compute_atom_weight accepts a user cut-off): any     *)
+(* cut < 1/2 must give a partition of unity.  ProgramG with the constant   *)
+(* 9/20 is, tree for tree, the Program above (LemmaProgramG).              *)
+(***************************************************************************)
+PairStepsG(dim_, order_, b_, c_, cutE_) ==
+    <<  <<Nm2("d", b_, c_), DistE(dim_, AtomVars(b_, dim_), AtomVars(c_, dim_))>>,
+        <<Nm2("mu", b_, c_), Div(Sub(V(Nm("r", b_)), V(Nm("r", c_))), V(Nm2("d", b_, c_)))>>,
+        <<Nm2("a", b_, c_), AlphaE(V(Nm("rad", b_)), V(Nm("rad", c_)), cutE_)>>,
+        <<Nm2("f0_", b_, c_), NuE(V(Nm2("mu", b_, c_)), V(Nm2("a", b_, c_)))>> >>
+    \o [k_ \in 1..order_ |-> <<Nm2("f" \o ToString(k_) \o "_", b_, c_),
+                               StepE(V(Nm2("f" \o ToString(k_ - 1) \o "_", b_, c_)))>>]
+    \o << <<Nm2("s", b_, c_), SwitchOfE(V(Nm2("f" \o ToString(order_) \o "_", b_, c_)))>> >>
+ProgramG(m_, order_, dim_, cutE_) ==
+    [b_ \in 1..m_ |-> <<Nm("r", b_), DistE(dim_, PointVars(dim_), AtomVars(b_, dim_))>>]
+    \o Flat([k_ \in 1..NPairs(m_) |-> PairStepsG(dim_, order_, PairB(m_, k_), PairC(m_, k_), cutE_)])
+    \o [b_ \in 1..m_ |-> <<Nm("P", b_), ProdOthersE(m_, b_)>>]
+    \o << <<"tot", SumPE(m_)>> >>
+    \o [b_ \in 1..m_ |-> <<Nm("w", b_), Div(V(Nm("P", b_)), V("tot"))>>]
+ProgramC(m_, order_, dim_) == ProgramG(m_, order_, dim_, V("cut"))
+InterfaceC(m_, dim_) == [cut |-> "cut"] @@ Interface(m_, dim_)
+
+(***************************************************************************)
+(* Part E (audit extension).  Hirshfeld: the weight of atom b is its share *)
+(* of the pro-molecule density, h_b = rho_b / sum_c rho_c, on the points   *)
+(* b owns (ownership as in Part C).                                        *)
+(***************************************************************************)
+SumRhoE(m_) ==
+    LET RECURSIVE S(_)
+        S(b_) == IF b_ = 0 THEN CI(0) ELSE Add(S(b_ - 1), V(Nm("rho", b_)))
+    IN S(m_)
+HirshProgram(m_) ==
+    << <<"promol", SumRhoE(m_)>> >> \o [b_ \in 1..m_ |-> <<Nm("h", b_), Div(V(Nm("rho", b_)), V("promol"))>>]
+HirshInterface(m_) == [rho |-> [b_ \in 1..m_ |-> Nm("rho", b_)], outputs |-> [b_ \in 1..m_ |-> Nm("h", b_)]]
+
 \* exact run of a program: environment maps names to rationals
 RECURSIVE RunQ(_, _)
 RunQ(prog_, env_) ==
@@ -179,6 +220,61 @@ RadiusSource(z_) == IF z_ \in Defined THEN z_
 FallbackTotal == \A z \in 1..ZMax : RadiusSource(z) \in Defined /\ RadiusSource(z) >= 1
 Undefined == (1..ZMax) \ Defined
 
+(***************************************************************************)
+(* Audit extension: cut-off family, generalised fall-back, Hirshfeld share.*)
+(***************************************************************************)
+CutLattice == {<<1, 10>>, <<1, 4>>, <<3, 8>>, <<9, 20>>, <<49, 100>>}
+AlphaCQ(ra_, rb_, c_) == EvalQ(AlphaE(V("ra"), V("rb"), V("cut")), ("cut" :> c_) @@ Env2("ra", ra_, "rb", rb_))
+LemmaCutFamily ==
+    \A c \in CutLattice :
+        /\ QLt(c, <<1, 2>>)
+        /\ \A ra \in RadiiLattice, rb \in RadiiLattice :
+             LET a == AlphaCQ(ra, rb, c) IN
+             /\ a = ClipQ(AlphaRawQ(ra, rb), c)
+             /\ a = QNeg(AlphaCQ(rb, ra, c))
+             /\ \A mu \in MuLattice : QIn(NuQ(mu, a), QMinusOne, QOne)
+             /\ \A k \in -8..7 : QLt(NuQ(Q(k, 8), a), NuQ(Q(k + 1, 8), a))
+        /\ (c = Cutoff => \A ra \in RadiiLattice, rb \in RadiiLattice : AlphaCQ(ra, rb, c) = AlphaQ(ra, rb))
+LemmaProgramG ==
+    \A mm \in 1..3, o \in 1..3, d \in {1, 3} : ProgramG(mm, o, d, CQ(Cutoff)) = Program(mm, o, d)
+
+\* fall-back relative to an arbitrary set of elements with a radius (the public ``radii`` override can
+\* give a radius to an element that has none, or take one away with nan)
+RadiusSourceIn(def_, z_) == IF z_ \in def_ THEN z_ ELSE IF z_ - 1 \in def_ THEN z_ - 1 ELSE z_ - 2
+Scenarios == << [add |-> {2}, del |-> {}],
+                [add |-> {}, del |-> {7}],
+                [add |-> {}, del |-> {7, 8}],
+                [add |-> {85}, del |-> {}],
+                [add |-> {10, 18}, del |-> {9}],
+                [add |-> {86}, del |-> {83}],
+                [add |-> {36}, del |-> {35, 37}] >>
+ScenarioDefined(s_) == (Defined \cup s_.add) \ s_.del
+ScenarioTable(s_) == {<<z, RadiusSourceIn(ScenarioDefined(s_), z)>> : z \in 1..ZMax}
+LemmaFallbackIn ==
+    /\ \A z \in 1..ZMax : RadiusSourceIn(Defined, z) = RadiusSource(z)
+    /\ \A i \in 1..Len(Scenarios) :
+         LET dd == ScenarioDefined(Scenarios[i]) IN
+         /\ \A z \in 1..ZMax : RadiusSourceIn(dd, z) \in dd /\ RadiusSourceIn(dd, z) >= 1   \* admissible: two steps suffice
+         /\ \A z \in Scenarios[i].add : RadiusSourceIn(dd, z) = z                          \* an override is used, not the fall-back
+         /\ \A z \in Scenarios[i].del : RadiusSourceIn(dd, z) # z
+         /\ \E z \in 1..ZMax : RadiusSourceIn(dd, z) # RadiusSource(z)                      \* the scenario matters
+
+RhoLattice == {QZero, <<1, 3>>, QOne, <<5, 2>>}
+RECURSIVE TuplesOf(_, _)
+TuplesOf(S_, k_) == IF k_ = 0 THEN {<<>>} ELSE UNION {{<<x>> \o t : t \in TuplesOf(S_, k_ - 1)} : x \in S_}
+HirshQ(rho_) ==
+    LET m == Len(rho_)
+        env == RunQ(HirshProgram(m), [n \in {Nm("rho", b) : b \in 1..m} |->
+                                         rho_[CHOOSE b \in 1..m : Nm("rho", b) = n]])
+    IN [b \in 1..m |-> env[Nm("h", b)]]
+LemmaHirsh ==
+    \A mm \in 1..3 : \A rho \in TuplesOf(RhoLattice, mm) :
+        (\E b \in 1..mm : rho[b] # QZero) =>
+            LET h == HirshQ(rho) IN
+            /\ QSum(h) = QOne
+            /\ \A b \in 1..mm : QIn(h[b], QZero, QOne) /\ (rho[b] = QZero => h[b] = QZero)
+            /\ \A b, c \in 1..mm : rho[b] = rho[c] => h[b] = h[c]
+
 AllLaws ==
     /\ Law("LemmaAlpha", LemmaAlpha)
     /\ Law("LemmaAlphaNonVacuous", LemmaAlphaNonVacuous)
@@ -187,6 +283,11 @@ AllLaws ==
     /\ Law("LemmaStep", LemmaStep)
     /\ Law("LemmaSwitch", LemmaSwitch)
     /\ Law("FallbackTotal", FallbackTotal)
+AllLawsAudit ==
+    /\ Law("LemmaCutFamily", LemmaCutFamily)
+    /\ Law("LemmaProgramG", LemmaProgramG)
+    /\ Law("LemmaFallbackIn", LemmaFallbackIn)
+    /\ Law("LemmaHirsh", LemmaHirsh)
 
 (***************************************************************************)
 (* State.  Two machines share the variables; a configuration picks one     *)
@@ -284,6 +385,33 @@ EmitAlg ==
             [dim1 |-> [m \in 1..4 |-> [o \in 1..3 |-> [prog |-> Program(m, o, 1), io |-> Interface(m, 1)]]],
              dim3 |-> [m \in 1..MaxAtoms3 |-> [o \in 1..3 |-> [prog |-> Program(m, o, 3), io |-> Interface(m, 3)]]]])
     /\ JsonSerialize("becke_fallback.json", SetToSeq({<<z, RadiusSource(z)>> : z \in Undefined}))
+\* audit extension: more atoms / higher switching orders (3-D programs), cut-off-as-input programs,
+\* fall-back tables under radii overrides, Hirshfeld share programs
+EmitX(m_, o_) == o_ = 3 \/ m_ <= 6
+EmitAudit ==
+    /\ JsonSerialize("becke_programs_x.json",
+            [dim3 |-> [m \in 1..MaxAtomsX |-> [o \in 1..MaxOrderX |->
+                          [prog |-> IF EmitX(m, o) THEN Program(m, o, 3) ELSE <<>>, io |-> Interface(m, 3)]]],
+             dim3c |-> [m \in 1..5 |-> [o \in 1..3 |-> [prog |-> ProgramC(m, o, 3), io |-> InterfaceC(m, 3)]]],
+             hirsh |-> [m \in 1..MaxAtomsX |-> [prog |-> HirshProgram(m), io |-> HirshInterface(m)]]])
+    /\ JsonSerialize("becke_scenarios.json",
+            [i \in 1..Len(Scenarios) |-> [add |-> SetToSeq(Scenarios[i].add), del |-> SetToSeq(Scenarios[i].del),
+                                          table |-> SetToSeq(ScenarioTable(Scenarios[i]))]])
+LawsHoldAudit == pc = "idle" => AllLawsAudit
+EmittedAudit == pc = "idle" => EmitAudit
+\* cut-off family, exactly, on the small geometries: every admissible cut-off gives a partition of unity
+ProgsC == Force([mo \in (1..3) \X (1..2) |-> ProgramC(mo[1], mo[2], 1)])
+CutSmall == {<<1, 4>>, <<3, 8>>, <<9, 20>>}
+WeightsQC(g_, x_, c_) ==
+    LET env == RunQ(ProgsC[<<g_.M, g_.order>>], ("cut" :> c_) @@ EnvOf(g_, x_))
+    IN [b \in 1..g_.M |-> env[Nm("w", b)]]
+CutFamily ==
+    HasValue => \A c \in CutSmall :
+        LET w == WeightsQC(cs, cs.pt, c) IN
+        /\ QSum(w) = QOne
+        /\ \A b \in 1..cs.M : QIn(w[b], QZero, QOne)
+        /\ \A b \in 1..cs.M : cs.pt = cs.pos[b] => \A k \in 1..cs.M : w[k] = IF k = b THEN QOne ELSE QZero
+        /\ (c = Cutoff => w = acc.w)
 LawsHold == pc = "idle" => AllLaws
 Emitted == pc = "idle" => EmitAlg
 
@@ -309,22 +437,36 @@ Mono(k_, lo_, hi_) ==
     ELSE UNION {{<<v>> \o t : t \in Mono(k_ - 1, v, hi_)} : v \in lo_..hi_}
 IndexTables(m_, n_) == {<<0>> \o t \o <<n_>> : t \in Mono(m_ - 1, 0, n_)}
 
+Huge == 1000000
 ChunkSize == Max2(1, (10 * cs.N) \div (cs.M * cs.M))
 ChunkLen == Cardinality(Slice(ib, ib + ChunkSize, cs.N))
 PtInd(j_) == CASE Variant = "noclip" -> cs.idx[j_] - ib
                [] Variant = "shiftplus" -> Max2(cs.idx[j_] + ib, 0)
+               \* audit extension: the subtraction carried out in an unsigned integer type wraps around
+               \* instead of going negative (the clip then does nothing); Huge stands for 2^64 + (idx - ibegin)
+               [] Variant = "unsigned" -> IF cs.idx[j_] - ib < 0 THEN Huge ELSE cs.idx[j_] - ib
                [] OTHER -> Max2(cs.idx[j_] - ib, 0)
 
 InitChunk == pc = "idle" /\ cs = NoCase /\ ib = 0 /\ seg = 0 /\ acc = <<>>
 PickMN ==
     /\ pc = "idle"
-    /\ \E mm \in 1..MaxM, nn \in 1..MaxN : cs' = [M |-> mm, N |-> nn]
+    /\ \E mm \in 1..MaxM, nn \in 0..MaxN : cs' = [M |-> mm, N |-> nn]     \* (audit: N = 0, the empty grid, included)
     /\ pc' = "mn" /\ UNCHANGED <<ib, seg, acc>>
 PickTable ==
     /\ pc = "mn"
     /\ \E t \in IndexTables(cs.M, cs.N) : cs' = [M |-> cs.M, N |-> cs.N, idx |-> t]
-    /\ pc' = "chunk" /\ ib' = 0 /\ seg' = 0
+    /\ pc' = (IF cs.N = 0 THEN "done" ELSE "chunk")    \* range(0, 0, chunk) is empty: no chunk at all, empty result
+    /\ ib' = 0 /\ seg' = 0
     /\ acc' = [p \in 1..cs.N |-> [a \in 1..cs.M |-> 0]]
+\* audit extension: larger instances (more atoms, more points, segments spanning many chunks) chosen by the
+\* harness (ExtraCases, generated from VERIF_SEED) go through the same algorithm and the same invariants
+PickExtra ==
+    /\ pc = "idle"
+    /\ \E i \in 1..Len(ExtraCases) :
+         /\ cs' = [M |-> ExtraCases[i].M, N |-> ExtraCases[i].N, idx |-> ExtraCases[i].idx, x |-> i]
+         /\ pc' = (IF ExtraCases[i].N = 0 THEN "done" ELSE "chunk")
+         /\ acc' = [p \in 1..ExtraCases[i].N |-> [a \in 1..ExtraCases[i].M |-> 0]]
+    /\ ib' = 0 /\ seg' = 0
 SegStep ==
     /\ pc = "chunk" /\ seg < cs.M
     /\ LET len == ChunkLen
@@ -338,7 +480,7 @@ ChunkEnd ==
     /\ ib' = ib + ChunkSize /\ seg' = 0
     /\ pc' = IF ib + ChunkSize >= cs.N THEN "done" ELSE "chunk"
     /\ UNCHANGED <<cs, acc>>
-NextChunk == PickMN \/ PickTable \/ SegStep \/ ChunkEnd
+NextChunk == PickMN \/ PickTable \/ PickExtra \/ SegStep \/ ChunkEnd
 
 Running == pc \in {"chunk", "done"}
 Done == pc = "done"
@@ -379,12 +521,25 @@ RECURSIVE Pow4(_)
 Pow4(k_) == IF k_ = 0 THEN 1 ELSE 4 * Pow4(k_ - 1)
 ExpectedCodes == [p \in 1..cs.N |-> Pow4(Owner(p) - 1)]
 AlgoCodes == [p \in 1..cs.N |-> ISum([a \in 1..cs.M |-> acc[p][a] * Pow4(a - 1)])]
-Leaf == IF cs.M <= Len(Obs) /\ cs.N <= Len(Obs[cs.M])
+IsExtra == "x" \in DOMAIN cs
+Leaf == IF IsExtra THEN (IF cs.x <= Len(ObsExtra) THEN ObsExtra[cs.x] ELSE <<>>)
+        ELSE IF cs.N = 0 THEN (IF cs.M <= Len(ObsZero) THEN ObsZero[cs.M] ELSE <<>>)
+        ELSE IF cs.M <= Len(Obs) /\ cs.N <= Len(Obs[cs.M])
         THEN Walk(Obs[cs.M][cs.N], SubSeq(cs.idx, 2, cs.M)) ELSE <<>>
 RouteNames == <<"call", "generate", "compute">>
 ObsConforms ==
     Done => \A r \in 1..3 :
-        LET o == IF Len(Leaf) >= r THEN Leaf[r] ELSE <<>>
+        LET o == IF Len(Leaf) >= r THEN Leaf[r] ELSE IF cs.N = 0 THEN <<-3>> ELSE <<>>   \* <<-3>>: not observed
             want == IF r = 1 THEN AlgoCodes ELSE ExpectedCodes
         IN o = want \/ PrintT(<<"MISMATCH", RouteNames[r], cs.M, cs.N, cs.idx, want, o>>)
+\* audit extension: further observed routes (other container / integer types for the index table, the
+\* Hirshfeld call whose ownership rule is the same) on the extra cases; entry r of RouteNamesX names leaf[r]
+RouteNamesX == <<"call", "generate", "compute", "call-int32", "call-int16", "generate-ndarray", "compute-ndarray",
+                 "generate-tuple", "compute-int32", "hirshfeld", "hirshfeld-int32", "call-uint64", "call-uint32", "hirshfeld-uint64">>
+RouteChunked(r_) == RouteNamesX[r_] \in {"call", "call-int32", "call-int16", "call-uint64", "call-uint32"}
+ObsConformsX ==
+    (Done /\ IsExtra) => \A r \in 4..Len(RouteNamesX) :
+        LET o == IF Len(Leaf) >= r THEN Leaf[r] ELSE <<-3>>
+            want == IF RouteChunked(r) THEN AlgoCodes ELSE ExpectedCodes
+        IN o = want \/ PrintT(<<"MISMATCH", RouteNamesX[r], cs.M, cs.N, cs.idx, want, o>>)
 =============================================================================
